@@ -75,6 +75,9 @@ class TBPath:
             return "fallthrough"
         imm = self.immediate_done()
         if imm is True:
+            # (F-128) in end(), where an action of the transition may have left for another state, the body must not answer: the caller looks at the state really reached
+            if self.get("FROM_END") is True and self.get("LEAVES") is True:
+                return "end_nonfall"
             return "immediate_done"
         if imm is None:
             return "unknown"
